@@ -13,6 +13,8 @@ PROFILES = {
     "service":   (0.03,   0.02,  0.0,   0.25,     3.0),
     # leader change right after a commit that reached only part of the followers (see handover_window)
     "handover":  (0.03,   0.02,  0.1,   0.15,     2.5),
+    # a deaf leader steps down in the middle of its AppendEntries fan-out (see stepdown_bias)
+    "stepdown":  (0.12,   0.02,  0.0,   0.3,      2.5),
 }
 
 
@@ -74,6 +76,73 @@ def handover_window(w):
     return None
 
 
+def higher_term_positions(w, i):
+    q = w.queue(i)
+    t = w.g["currentTerm"][i]
+    return [k for k in w.deliverable(i) if q[k].get("mterm", 0) > t]
+
+
+def stepdown_bias(rng, w):
+    """profile `stepdown`: the first leader (`w.isolated`) does not hear the other servers (their messages wait in its queue) and is
+    hardly heard by them, so the others elect a new leader that commits entries the isolated one lacks. Then (`w.iso_released`) the isolated
+    server starts an AppendEntries fan-out, its AServer handles a waiting message of a higher term BETWEEN two iterations of the fan-out
+    (it steps down), the fan-out continues, and what it may have sent is delivered. Returns an event or None."""
+    g = w.g
+    iso = getattr(w, "isolated", None)
+    if iso is None:
+        ls = [i for i in w.servers() if g["state"][i] == "leader" and g["network"][i]["enabled"]]
+        if not ls:
+            return None
+        iso = w.isolated = ls[0]
+        w.iso_released = False
+        w.iso_target = None
+    w.slow = set() if w.iso_released else set([iso])
+    if not w.iso_released:
+        for j in w.servers():
+            if j != iso and g["state"][j] == "leader" and g["currentTerm"][j] > g["currentTerm"][iso] and g["commitIndex"][j] > 0:
+                for k in w.servers():
+                    c = g["commitIndex"][k]
+                    if k not in (iso, j) and c > 0 and g["currentTerm"][k] == g["currentTerm"][j] and g["log"][iso][:c] != g["log"][k][:c]:
+                        w.iso_released, w.iso_target = True, k
+        if not w.iso_released:
+            return None
+    k = w.iso_target
+    pc2 = w.pc["s%d.2" % iso]
+    idx = w.loc("s%d.2" % iso, "AServerAppendEntries.idx", 0)
+    if g["state"][iso] == "leader":
+        if pc2 == "AServerAppendEntries.serverAppendEntriesLoop":
+            return ("EAELoop", iso, 0 if len(g["appendEntriesCh"][iso]) > 0 else 1)
+        if isinstance(idx, int) and (idx > k or (idx < k and not (idx >= 2 and rng.random() < 0.3))):
+            return ("EAESend", iso, 0, True)          # (idx > k: finish this fan-out, the next one is used)
+        # in the middle of the fan-out: the AServer of the same server handles a message of a higher term
+        if w.pc["s%d.0" % iso] == "AServer.handleMsg":
+            return ("EHandleMsg", iso, 0, True)
+        H = higher_term_positions(w, iso)
+        if H:
+            return ("EServerLoop", iso, H[0])
+        return None
+    if pc2 == "AServerAppendEntries.appendEntriesLoop":
+        return ("EAESend", iso, 0, True)              # the rest of the fan-out after stepping down
+    w.iso_tries = getattr(w, "iso_tries", 0) + 1
+    if w.iso_tries > 30:
+        w.isolated, w.iso_tries = None, 0
+        return None
+    if len(w.queue(iso)) >= w.p["buf"] - 1:          # make room for the answers to the formerly deaf server
+        if w.pc["s%d.0" % iso] == "AServer.handleMsg":
+            return ("EHandleMsg", iso, 0, True)
+        return ("EServerLoop", iso, 0)
+    q = w.queue(k)
+    for pos in w.deliverable(k):
+        if q[pos]["msource"] == iso and q[pos].get("mtype") == "apq":
+            if w.pc["s%d.0" % k] == "AServer.handleMsg":
+                return ("EHandleMsg", k, 0, True)
+            return ("EServerLoop", k, pos)
+    if w.pc["s%d.0" % k] == "AServer.handleMsg" and (w.loc("s%d.0" % k, "AServer.m") or {}).get("msource") == iso:
+        return ("EHandleMsg", k, 0, True)
+    w.isolated, w.iso_tries = None, 0                  # over: a later leader may play the part again
+    return None
+
+
 def tuple_event(e):
     """JSON list -> event tuple"""
     e = list(e)
@@ -124,7 +193,14 @@ def choose_event(rng, w, profile):
                   or g["commitIndex"][focus[2]] >= g["commitIndex"][focus[1]]):
         focus = w.focus = None                  # the change of leader did not happen / is over
 
-    boost = 3.0 if profile == "handover" else 1.0     # replication and commit rounds of the leader
+    boost = 3.0 if profile in ("handover", "stepdown") else 1.0     # replication and commit rounds of the leader
+    deaf = None
+    if profile == "stepdown":
+        ev = stepdown_bias(rng, w)
+        if ev is not None and rng.random() < 0.9:
+            return ev
+        if getattr(w, "isolated", None) is not None and not getattr(w, "iso_released", False):
+            deaf = w.isolated
 
     def send_choice():
         r = rng.random()
@@ -139,22 +215,27 @@ def choose_event(rng, w, profile):
         f = 1.0 if alive else 0.04
         if focus:
             f *= 0.05 if i == focus[0] else 5.0 if i in focus[1:] else 0.3
+        if i == deaf:
+            f *= 0.3                            # fewer rounds of the isolated leader: the others get on
         q = w.queue(i)
         # AServer
         if w.pc["s%d.0" % i] == "AServer.serverLoop":
             D = w.deliverable(i)
+            if i == deaf:                      # the isolated leader hears its clients only
+                D = [k for k in D if q[k].get("mtype") in ("cpq", "cgq")]
             if D:
                 slow = getattr(w, "slow", ())
                 allslow = all(q[k]["msource"] in slow for k in D)
                 cands.append(((0.5 if allslow else 6) * f, ("EServerLoop", i, pick_position(rng, w, i, D))))
-            else:
+            elif i != deaf:
                 cands.append((0.15 * f, ("EServerLoop", i, 0)))
         else:
             br, fdv = send_choice()
             cands.append((9 * f, ("EHandleMsg", i, br, fdv)))
         # AServerRequestVote
         if w.pc["s%d.1" % i] == "AServerRequestVote.serverRequestVoteLoop":
-            wgt = p_timeout * (2.5 if not live_leader(w) else 0.25)
+            heard = any(g["state"][j] == "leader" and g["network"][j]["enabled"] and j != deaf for j in w.servers())
+            wgt = p_timeout * (2.5 if not heard else 0.25)
             if g["state"][i] == "leader":
                 wgt = 0.03
             lt = rng.random() < 0.92
